@@ -9,7 +9,8 @@
 From Refinery Require Import Lib.Base Model.Query Proofs.Query.
 
 (* the extracted table: every route running a config/placement-revealing handler and every route below /query/
-   is behind queryTokenChecker; the checker's text is the modelled one; its error status is a 4xx *)
+   is behind queryTokenChecker and restricted to the non-empty method list extracted for the /query/ sub-router;
+   the checker's source is exactly the modelled text and never mentions the request method; its error is a 4xx *)
 Theorem C25_routing_table_guards_query : table_ok = true.
 Proof. exact table_ok_true. Qed.
 Print Assumptions C25_routing_table_guards_query.
@@ -26,6 +27,14 @@ Theorem C25_data_only_when_authorized : forall required clean m p hdr h,
   serve required clean m p hdr = QData h -> required <> ""%string /\ hdr = required.
 Proof. exact data_only_when_authorized. Qed.
 Print Assumptions C25_data_only_when_authorized.
+
+(* ... for EVERY method: a method the extracted table does not list for the /query/ sub-router never reaches a
+   revealing handler at all (and table_ok demands that the checker's source never looks at the method, so for the
+   listed ones the verdict above is method-independent) *)
+Theorem C25_unlisted_method_no_data : forall required clean m p hdr h,
+  ~ In m query_methods -> In h sensitive -> serve required clean m p hdr <> QData h.
+Proof. exact unlisted_method_no_data. Qed.
+Print Assumptions C25_unlisted_method_no_data.
 
 (* ... and no unguarded route runs one of the revealing handlers *)
 Theorem C25_sensitive_never_unguarded : forall required clean m p hdr h,
@@ -71,5 +80,7 @@ Example C25_nonvacuous :
     "{""source"":""refinery"",""error"":""unknown API key - check your credentials: token s3cre found in X-Honeycomb-Refinery-Query not authorized for query""}" /\
   serve "s3cret" true "GET" "/query/trace/abc" "S3CRET" <> QData "debugTrace" /\
   serve "" true "GET" "/query/configmetadata" "" <> QData "getConfigMetadata" /\
-  serve "s3cret" true "POST" "/query/allrules/yaml" "s3cret" = QOther "proxy".
+  serve "s3cret" true "POST" "/query/allrules/yaml" "s3cret" = QOther "proxy" /\
+  serve "s3cret" true "OPTIONS" "/query/trace/abc" "" = QOther "proxy" /\
+  query_methods = ["GET"].
 Proof. vm_compute. repeat split; try reflexivity; discriminate. Qed.
